@@ -21,7 +21,7 @@ TECHNIQUE = "TLA+ contract + TLC; TLC-generated scenarios on 4 ASan-instrumented
 SPEC = os.path.join(VERIF, "spec", "tasking")
 
 
-BURSTY = ("burst", "nested", "reinit")
+BURSTY = ("burst", "nested", "reinit", "chain")
 
 
 def run_driver(exe, scenarios, threads, tag, timeout=300):
@@ -88,11 +88,13 @@ def run_driver(exe, scenarios, threads, tag, timeout=300):
 
 def classify(backend, sc, evs, k):
     ev = evs[k]
-    kind = {"atask": "AsyncTask<%s>" % sc["type"], "async": "async<%s>" % sc["type"], "burst": "schedule", "nested": "schedule-from-scheduled-closure", "reinit": "schedule-then-initTaskingSystem"}[sc["kind"]]
+    kind = {"atask": "AsyncTask<%s>" % sc["type"], "async": "async<%s>" % sc["type"], "burst": "schedule", "nested": "schedule-from-scheduled-closure", "reinit": "schedule-then-initTaskingSystem", "chain": "schedule-back-to-back-with-dependency"}[sc["kind"]]
     what = ev.get("ev")
     if what == "Abort":
         rep = ev.get("report", "") + ev.get("why", "")
-        if "heap-use-after-free" in rep:
+        if "dependency starved" in rep:
+            field = "queued-closure-not-started-while-workers-idle"
+        elif "heap-use-after-free" in rep:
             field = "use-after-free"
         elif "AddressSanitizer" in rep or "double free" in rep or "died" in rep:
             field = "crash"
@@ -158,6 +160,9 @@ def run(chk, replay=None):
         if backend == "Debug":
             # schedule() is synchronous there: a closure scheduling 3000 closures recursively is just deep recursion
             mine = [s for s in mine if not (s["kind"] == "nested" and s["n"] > 600)]
+        # chains need a worker per closure: not on the serial Debug back end (schedule() runs the closure inline), and the
+        # chain length stays below the number of workers
+        mine = [s for s in mine if not (s["kind"] == "chain" and (backend == "Debug" or s["n"] > threads - 1))]
         if backend == "OpenMP":
             # schedule() starts one detached std::thread per closure there: a burst of 30000 is a test of the
             # operating system's thread limits, not of the property - bursts stop at 1000 on this backend
